@@ -4,7 +4,7 @@ from hypothesis import strategies as st
 
 from tv.core import Result
 from tv.cyc import Harness, history, step
-from tv.memx import SHAPES, apply_mask, granules
+from tv.memx import ELEM_SHAPES, from_data, gran_arg, make_shape, to_data, SHAPES, apply_mask, granules
 
 ID = "C22"
 ENGINE = "B"
@@ -34,6 +34,9 @@ def strategy(draw, tier="quick"):
     nw = draw(st.integers(1, 3))
     depth = draw(st.integers(max(2, nw), 9))
     width, gran = draw(st.sampled_from(SHAPES))
+    elem = None
+    if draw(st.integers(0, 3)) == 0:
+        width, gran, elem = draw(st.sampled_from(ELEM_SHAPES))
     g = granules(width, gran)
     methods = {}
     for i in range(nr):
@@ -42,20 +45,21 @@ def strategy(draw, tier="quick"):
         methods[f"write{j}"] = [64, 1 << width, 1 << g]
     hi = 60 if tier == "quick" else 200
     hist = draw(history(methods, 5, hi))
-    return {"nr": nr, "nw": nw, "depth": depth, "width": width, "gran": gran, "history": hist}
+    return {"nr": nr, "nw": nw, "depth": depth, "width": width, "gran": gran, "elem": elem, "history": hist}
 
 
 def run_case(case) -> Result:
     from transactron.lib import AsyncMemoryBank
 
     nr, nw, depth, width, gran = case["nr"], case["nw"], case["depth"], case["width"], case["gran"]
+    elem = case.get("elem")
     g = granules(width, gran)
     full = (1 << g) - 1
-    res = Result(labels=[f"r{nr}w{nw}"])
+    res = Result(labels=[f"r{nr}w{nw}"] + ([] if elem is None else ["struct_shape" if elem == "struct" else "array_shape"]))
     if gran is not None:
         res.labels.append("gran" if g >= 2 else "gran1")
     h = Harness(
-        lambda: AsyncMemoryBank(shape=width, depth=depth, granularity=gran, read_ports=nr, write_ports=nw)
+        lambda: AsyncMemoryBank(shape=make_shape(width, elem), depth=depth, granularity=gran_arg(gran, elem), read_ports=nr, write_ports=nw)
     )
     flags = dict(same_cycle_rw=False, read_after_write=False, partial_write=False, multi_write=False)
 
@@ -79,7 +83,7 @@ def run_case(case) -> Result:
                 if gran is None:
                     mask = 1
                 writes[j] = (addr, data, mask)
-                args = {"addr": addr, "data": data}
+                args = {"addr": addr, "data": to_data(data, width, elem)}
                 if gran is not None:
                     args["mask"] = mask
                 reqs[f"write{j}"] = args
@@ -115,7 +119,7 @@ def run_case(case) -> Result:
             if len(writes) >= 2:
                 flags["multi_write"] = True
             for i, addr in raddr.items():
-                got = results[f"read{i}"]["data"]
+                got = from_data(results[f"read{i}"]["data"], width, elem)
                 if got != mem[addr]:
                     return res.fail(
                         f"AsyncMemoryBank(depth={depth}, width={width}, gran={gran}, r{nr}w{nw}) cycle {cyc}: read{i} "
